@@ -14,6 +14,11 @@ func (cs ClientState) ExportMetadata(store storetypes.KVStore) []exported.Genesi
 		gm = append(gm, clienttypes.NewGenesisMetadata(key, val))
 		return false
 	})
+	// the iteration keys let the client walk (and prune) its consensus states in height order after an import
+	IterateConsensusStateAscending(store, func(height exported.Height) bool {
+		gm = append(gm, clienttypes.NewGenesisMetadata(IterationKey(height), GetIterationKey(store, height)))
+		return false
+	})
 	if len(gm) == 0 {
 		return nil
 	}
